@@ -569,7 +569,13 @@ def _balanced(s):
     return d == 0
 
 
+_STR_LIT = re.compile(r"""(?<![A-Za-z0-9_])[bBrRuUfF]{0,2}('(?:[^'\\\n]|\\.)*'|"(?:[^"\\\n]|\\.)*")""")
+
+
 def mentions(text, name):
+    if ("'" in text or '"' in text) and not ("'" in name or '"' in name):
+        # a word inside a string literal (an error message that NAMES the parameter) is not the value
+        text = _STR_LIT.sub("''", text)
     return re.search(r'(?<![A-Za-z0-9_.])%s(?![A-Za-z0-9_])' % re.escape(name), text) is not None
 
 
@@ -577,6 +583,9 @@ def strip_calls(text, allowed):
     """Remove every `callee(...)` whose callee text ends with one of `allowed` (balanced), so what remains is the part of
     the value that is NOT protected by an encrypting call."""
     out = text
+    if 'memoryview(' in out and '.nbytes' in out:
+        # memoryview(x).nbytes observes the size of x and nothing else: the same observation as len(x)
+        out = re.sub(r'(?<![A-Za-z0-9_.])memoryview\(([^()]*(?:\([^()]*\)[^()]*)*)\)\.nbytes\b', r'len(\1)', out)
     changed = True
     while changed:
         changed = False
